@@ -1,10 +1,72 @@
 import TwigModel.Proto
+import TwigModel.MapOrder
 open Lean
 namespace Twig.Ops
+open Twig.MapOrder
 
-/-- driver ops of the MapOrder area (see the module TwigModel.MapOrder); `none` = not one of ours -/
+private def decodeUtf8 (bs : Bytes) : Option (List Char) :=
+  (String.fromUTF8? (ByteArray.mk bs.toArray)).map String.toList
+
+private def encodeUtf8 (cs : List Char) : Bytes := (String.ofList cs).toUTF8.toList
+
+private def convertOne (fmt : Bytes) : Json :=
+  match decodeUtf8 fmt with
+  | some cs => Proto.hex (encodeUtf8 (convertDateFormat (charTable dateTable) cs))
+  | none => Json.null   -- format is not valid UTF-8: Go substitutes U+FFFD, not modelled
+
+private def parseKey (cls : String) (j : Json) : Except String GoKey :=
+  match cls with
+  | "int" => do let i ← j.getInt?; pure (.int i)
+  | "uint" => do let n ← j.getNat?; pure (.uint n)
+  | "str" => do let s ← Proto.asBytes j; pure (.str s)
+  | "other" => do
+      let a ← j.getArr?
+      match a.toList with
+      | [i, p] => do let n ← i.getNat?; let s ← Proto.asBytes p; pure (.other n s)
+      | _ => throw "other key: want [ident, printedHex]"
+  | _ => throw s!"unknown key class {cls}"
+
+private def keyJson : GoKey → Json
+  | .int i => Json.num (JsonNumber.fromInt i)
+  | .uint n => Json.num (JsonNumber.fromNat n)
+  | .str s => Proto.hex s
+  | .other i p => Json.arr #[Json.num (JsonNumber.fromNat i), Proto.hex p]
+
+/-- driver ops of the MapOrder area (see the module TwigModel.MapOrder); `none` = not one of ours
+
+  * `maporder_datefmt`       {fmts: [hex…]}                → {outs: [hex | null…]}   repaired convertDateFormat
+  * `maporder_datefmt_pinned`{fmt: hex, order: [hex…]}      → {out: hex}              pinned algorithm, table visited in `order` (letters)
+  * `maporder_sort_keys`     {cls: int|uint|str|other, keys: […]} → {sorted: […], determined: bool}
+        keys: ints / naturals / hex strings / [ident, printedHex]; `determined` = no two keys compare equal
+-/
 def mapOrderOps (op : String) (j : Json) : Option (Except String Json) :=
   match op with
+  | "maporder_datefmt" => some do
+      let fmts ← Proto.getArr j "fmts"
+      let outs ← fmts.toList.mapM fun f => do
+        let bs ← Proto.asBytes f
+        pure (convertOne bs)
+      pure (Proto.ok [("outs", Json.arr outs.toArray)])
+  | "maporder_datefmt_pinned" => some do
+      let fmt ← Proto.getBytes j "fmt"
+      let order ← Proto.getArr j "order"
+      let letters ← order.toList.mapM fun o => do
+        let bs ← Proto.asBytes o
+        match decodeUtf8 bs with
+        | some [c] => pure c
+        | _ => throw "order: want one-character letters"
+      let tbl := charTable dateTable
+      let ord : CharTable := letters.filterMap fun c => (tbl.lookup c).map fun g => (c, g)
+      match decodeUtf8 fmt with
+      | some cs => pure (Proto.ok [("out", Proto.hex (encodeUtf8 (convertDateFormatPinned ord cs)))])
+      | none => pure (Proto.ok [("out", Json.null)])
+  | "maporder_sort_keys" => some do
+      let cls ← Proto.getStr j "cls"
+      let ks ← Proto.getArr j "keys"
+      let keys ← ks.toList.mapM (parseKey cls)
+      let sorted := sortKeys keys
+      let determined := keys.all fun a => keys.all fun c => a == c || keyLess a c || keyLess c a
+      pure (Proto.ok [("sorted", Json.arr (sorted.map keyJson).toArray), ("determined", Json.bool determined)])
   | _ => none
 
 end Twig.Ops
